@@ -170,7 +170,7 @@ func lowerFirst(s string) string {
 
 // c03joint: the OpenAPI view of a route must not depend on how many services one plugin invocation
 // describes or on the CPUs the plugin process may use: all routing files go through ONE openapiv3
-// invocation under GOMAXPROCS 2, 3 and 5, and every service's document must be the document its own
+// invocation under GOMAXPROCS 2, 3, 4 and 7 (the service count must not be a multiple of all of them), and every service's document must be the document its own
 // invocation gave (which the route comparison below judges).
 func c03joint(c *Ctx, units []*routeUnit) {
 	var files []*spec.File
@@ -202,7 +202,7 @@ func c03joint(c *Ctx, units []*routeUnit) {
 		c.R.Harness("joint routing request: " + err.Error())
 		return
 	}
-	for _, gmp := range []string{"2", "3", "5"} {
+	for _, gmp := range []string{"2", "3", "4", "7"} {
 		res := c.TB.Run("openapiv3", req, plugin.RunOpt{Env: []string{"GOMAXPROCS=" + gmp}})
 		c.R.Eval(1)
 		caseBase := "route/joint-openapi-invocation/gomaxprocs=" + gmp
